@@ -513,9 +513,10 @@ def r2q(R, check=False, tol=100):
     if not base.isrot(R, check=check, tol=tol):
         raise ValueError("Argument must be a valid SO(3) matrix")
 
-    if R.dtype.kind == 'f' and R.dtype.itemsize < 8:
+    if (R.dtype.kind == 'f' and R.dtype.itemsize < 8) or R.dtype.kind in 'iub':
         # a half- or single-precision matrix: the quaternion is computed in
-        # double precision (in its own precision it is of unit norm to 1e-8 only)
+        # double precision (in its own precision it is of unit norm to 1e-8 only);
+        # an integer matrix likewise (differences of unsigned elements wrap)
         R = R.astype(np.float64)
 
     qs = math.sqrt(max(0, np.trace(R) + 1)) / 2.0
